@@ -824,7 +824,8 @@ def shrink(name, case):
     if name in ("faults", "partial_state") and not case.get("only"):
         stream = case["producer"] in ("ordered", "unordered")
         fs = _stream_faults(case, bool(case.get("thorough"))) if stream else _producer_faults(case, bool(case.get("thorough")))
-        for f in fs:
+        # a real fault first: the no-fault run is only the sanity member of the enumeration
+        for f in sorted(fs, key=lambda f: f["kind"] == "none"):
             yield dict(case, only=[f])
     if name == "validator":
         for ch in case["chunks"]:
